@@ -485,6 +485,15 @@ static void op_engine(void) {
 			field(mmd_engine_d_string(e)->str, mmd_engine_d_string(e)->currentStringLength);
 			break;
 		case 12: {
+			if (rq.nargs >= 2 && rq.a[1].len) {
+				/* a[0] = start, a[1] = length: parse only that range of the engine's text (public API), nothing else */
+				size_t st = arg_num(rq.a[0]), ln = arg_num(rq.a[1]), have = mmd_engine_d_string(e)->currentStringLength;
+				if (st > have) st = have;
+				if (ln > have - st) ln = have - st;
+				mmd_engine_parse_substring(e, st, ln);
+				field("", 0);
+				break;
+			}
 			walk_result w;
 			DString * acc = d_string_new("");
 			mmd_engine_parse_string(e);
